@@ -5,7 +5,10 @@ import Gen.C18
 
 /-! Driver for the `config` stream (C18): the model's `resolve` over the table regenerated from the
 compiled code, on the same op lines as the real `config.Load`. State = what earlier loads left in
-memory shared with `DefaultConfig`. -/
+memory shared with `DefaultConfig`.  The model's `Load` is a function of (command line, file,
+that state) only: which command OBJECT a load goes through (`cmd=<n>`, `newcmd=1` on the op lines)
+is deliberately ignored, so a loader whose result depends on an earlier load through the same
+object differs from the model. -/
 namespace Drv.C18
 open Config
 
@@ -85,13 +88,16 @@ def stepCfg (D : Layer) (o : Op) : Layer × String :=
       | none => (D, "err:flag-parse")
     | _ => (D, "bad-op")
   | "save" =>
+    -- `fl=`: the command line of the command the configuration is loaded back through (default: none)
+    let args := parsePairs (o.str "fl") false
+    if !argsOK table args then (D, "err:flag-parse") else
     let set := parsePairs (o.str "set") false
     let c : String → String := fun go =>
       match set.lookup go with
       | some v => v
       | none => ((table.fields.find? (fun f => f.go = go)).map (·.dflt)).getD ""
     let file := save table c
-    (nextDefaults table D [] file, s!"ok cfg={showCfg D [] file}")
+    (nextDefaults table D args file, s!"ok cfg={showCfg D args file}")
   | "loadx" => (D, "checked")   -- values not of the option's type / malformed files: not predicted
   | "savex" => (D, "checked")   -- values on which the YAML writer and reader disagree: not predicted
   | _ => (D, "bad-op")
